@@ -271,6 +271,11 @@ do_set(Ctx& x, const VhTok& t)
         // at most 8 Ki pixels, rarely 64 Ki or 1 Mi
         uint64_t b2 = (uint64_t)(p.binning ? p.binning : 1) * (p.binning ? p.binning : 1);
         uint64_t budget = ((t.d >> 13) == 7) ? ((t.c & 0x100) ? (1u << 20) : (1u << 16)) : (1u << 13);
+        // a camera that spins (exposure of 1 ms or less) renders an image at every turn the schedule gives it,
+        // hundreds under a priority schedule: megapixel images only on cameras that sleep between frames
+        static const float exps0[8] = { 0.f, 500.f, 2000.f, 5000.f, 10000.f, 20000.f, 50000.f, 1000.f };
+        if (exps0[(t.d >> 8) & 7] <= 1000.f && budget > (1u << 16))
+            budget = 1u << 16;
         uint32_t cx = clampu(p.shape.x, 1, maxdim), cy = clampu(p.shape.y, 1, maxdim);
         if ((uint64_t)cx * cy * b2 > budget) {
             uint32_t lim_y = (uint32_t)(budget / b2 / cx);
